@@ -19,6 +19,8 @@ const modPath = "github.com/versity/versitygw"
 
 // Program is the resolved target program for one build configuration.
 type Program struct {
+	Renames      []string // anchors located under another name (rename.go)
+	renamed      []*ssa.Function
 	Inlined      int                    // call sites normalised by inline.go
 	Absorbed     map[*ssa.Function]bool // helpers that now exist only as inlined copies: not analysed on their own
 	InlinedCalls []inlinedCall
@@ -125,6 +127,7 @@ func LoadProgram(dir string, overlay map[string][]byte, goos, goarch string) *Pr
 			p.fnIndex[fnName(f)] = f
 		}
 	}
+	resolveRenames(p)
 	p.Inlined, p.Absorbed = inlineAll(p)
 	programs.Store(prog, p)
 	return p
@@ -197,6 +200,9 @@ func fnName(f *ssa.Function) string {
 	if f.Parent() != nil {
 		return fnName(f.Parent()) + "$" + strings.TrimPrefix(f.Name(), f.Parent().Name()+"$")
 	}
+	if n, ok := renamedFns.Load(f); ok {
+		return n.(string)
+	}
 	if obj, ok := f.Object().(*types.Func); ok && obj != nil {
 		return objName(obj)
 	}
@@ -215,9 +221,53 @@ func objName(fn *types.Func) string {
 func (p *Program) Func(name string) *ssa.Function {
 	f := p.fnIndex[name]
 	if f == nil {
+		f = p.returnedFunc(name)
+	}
+	if f == nil {
 		broken("anchor function %q does not resolve in %s", name, p.Config)
 	}
 	return f
+}
+
+// returnedFunc: "pkg.Factory$1" names the function literal a factory returns (a fiber handler). When the factory
+// returns a named function or a method value instead, that function is the same subject: it is found through
+// the factory's return value and from then on answers to the literal's name.
+func (p *Program) returnedFunc(name string) *ssa.Function {
+	i := strings.LastIndex(name, "$")
+	if i <= 0 {
+		return nil
+	}
+	fac := p.fnIndex[name[:i]]
+	if fac == nil || len(fac.Blocks) == 0 {
+		return nil
+	}
+	var cands []*ssa.Function
+	for _, ret := range returnsOf(fac) {
+		if len(ret.Results) == 0 {
+			continue
+		}
+		for _, g := range funcValuesOf(ret.Results[0]) {
+			dup := false
+			for _, h := range cands {
+				dup = dup || h == g
+			}
+			if !dup {
+				cands = append(cands, g)
+			}
+		}
+	}
+	if len(cands) != 1 || len(cands[0].Blocks) == 0 {
+		return nil
+	}
+	g := cands[0]
+	was := fnName(g)
+	renamedFns.Store(g, name)
+	p.renamed = append(p.renamed, g)
+	p.fnIndex[name] = g
+	note := fmt.Sprintf("%s is the function %s returns; it is taken to be %s of the reference tree", was, name[:i], name)
+	p.Renames = append(p.Renames, note)
+	fmt.Fprintln(os.Stderr, "note: anchor relocated: "+note)
+	return g
 }
 
 func (p *Program) FuncOpt(name string) *ssa.Function { return p.fnIndex[name] }
